@@ -72,6 +72,9 @@ def current_actor():
     return getattr(_tls, "actor", None)
 
 
+TRACE_SCHED = bool(os.environ.get("VERIF_TRACE_SCHED"))    # debugging aid: scheduling decisions in the event tail
+
+
 class World:
     def __init__(self, ch, max_steps=20000, max_time=None, policy=None):
         self.ch = ch
@@ -335,6 +338,8 @@ class World:
                 if c is not cur:
                     self.switches += 1
                 self._hs.update(f"{c.name}:{c.desc};".encode())
+                if TRACE_SCHED:
+                    self.tail.append(f"    [{self.steps}] run {c.name}: {c.desc}")
                 self._grant(c)
             else:
                 label, fn = c
